@@ -29,6 +29,9 @@ type thread struct {
 	done    bool
 	what    string // description of the pending operation (for deadlock reports)
 	h       uint64 // happens-before hash of everything this thread did and observed
+	pdep    uint64 // object the pending operation acts on (0: independent of everything)
+	pop     int    // operation code within the object (0: unspecified)
+	pindep  func(otherOp int) bool // same-object operations this one commutes with, in the current state
 }
 
 func mix(a, b uint64) uint64 {
@@ -68,6 +71,11 @@ type point struct {
 	runningEnabled bool
 	isData         bool
 	key            uint64 // happens-before hash of the global state at this decision
+	ids            []int    // enabled thread ids, canonical order (sleep mode)
+	deps           []uint64 // dependence object of each enabled thread's pending operation
+	sleep          []int    // ids of the enabled threads that were asleep at this point
+	sleepH         []uint64 // happens-before hashes of all sleeping threads (sorted)
+	depm           [][]bool // depm[a][b]: pending operations of enabled threads a and b are dependent
 }
 
 // stateKey: commutative combination of the live threads' happens-before hashes (thread ids are not
@@ -117,6 +125,13 @@ type Exec struct {
 
 	wg   sync.WaitGroup
 	rels [4]uint64
+
+	delayMode bool
+	onPoint   func(x *Exec, key uint64) bool // online state-cache check at every new decision point
+
+	sleepMode bool
+	sleep     map[int]bool // ids of sleeping threads
+	initSleep []int        // sleep set to install after the last forced choice
 }
 
 type accessInfo struct {
@@ -210,7 +225,54 @@ func (x *Exec) schedule(candidate bool) {
 		panic(abortSentinel{})
 	}
 	var next *thread
-	if len(l) == 1 || (!candidate && runningEnabled) {
+	forced := len(x.choices) < len(x.prefix)
+	if x.sleepMode && !forced {
+		// sleep sets: a sleeping thread is not scheduled until an operation dependent with its pending one ran
+		awake := -1
+		for i, t := range l {
+			if !x.sleep[t.id] {
+				awake = i
+				break
+			}
+		}
+		if awake < 0 {
+			x.outcome = "sleepblocked"
+			x.abortAll()
+			panic(abortSentinel{})
+		}
+		if len(l) == 1 {
+			next = l[0]
+		} else {
+			if len(x.points) >= x.horizon {
+				x.outcome = "horizon"
+				x.abortAll()
+				panic(abortSentinel{})
+			}
+			x.choices = append(x.choices, awake)
+			pt := point{nEnabled: len(l), chosen: awake, runningEnabled: runningEnabled, key: x.stateKey(1)}
+			for _, t := range l {
+				pt.ids = append(pt.ids, t.id)
+				pt.deps = append(pt.deps, t.pdep)
+				if x.sleep[t.id] {
+					pt.sleep = append(pt.sleep, t.id)
+				}
+			}
+			for id := range x.sleep {
+				pt.sleepH = append(pt.sleepH, x.threads[id].h)
+			}
+			slices.Sort(pt.sleepH)
+			pt.depm = make([][]bool, len(l))
+			for a := range l {
+				pt.depm[a] = make([]bool, len(l))
+				for b := range l {
+					pt.depm[a][b] = a != b && dependent(l[a], l[b])
+				}
+			}
+			x.points = append(x.points, pt)
+			next = l[awake]
+		}
+		x.wakeDependents(next)
+	} else if len(l) == 1 || (!candidate && runningEnabled) {
 		next = l[0]
 	} else {
 		if len(x.points) >= x.horizon {
@@ -218,12 +280,32 @@ func (x *Exec) schedule(candidate bool) {
 			x.abortAll()
 			panic(abortSentinel{})
 		}
+		key := x.stateKey(1)
+		if x.onPoint != nil && len(x.choices) >= len(x.prefix) && !x.onPoint(x, key) {
+			x.outcome = "pruned"
+			x.abortAll()
+			panic(abortSentinel{})
+		}
 		c := x.nextChoice(len(l))
-		x.points = append(x.points, point{nEnabled: len(l), chosen: c, runningEnabled: runningEnabled, key: x.stateKey(1)})
-		if c != 0 && runningEnabled {
+		pt := point{nEnabled: len(l), chosen: c, runningEnabled: runningEnabled, key: key}
+		if x.sleepMode {
+			for _, t := range l {
+				pt.ids = append(pt.ids, t.id)
+				pt.deps = append(pt.deps, t.pdep)
+			}
+		}
+		x.points = append(x.points, pt)
+		if c != 0 && (runningEnabled || x.delayMode) {
 			x.Preemptions++
 		}
 		next = l[c]
+		if x.sleepMode && len(x.choices) == len(x.prefix) {
+			// last forced choice: install the sleep set computed by the explorer
+			x.sleep = map[int]bool{}
+			for _, id := range x.initSleep {
+				x.sleep[id] = true
+			}
+		}
 	}
 	if next == me {
 		me.enabled = nil
@@ -239,6 +321,57 @@ func (x *Exec) schedule(candidate bool) {
 		panic(abortSentinel{})
 	}
 	me.enabled = nil
+}
+
+var nextOp int
+var nextIndep func(otherOp int) bool
+
+// SetOp refines the dependence relation for the next Block/Yield of the running thread: op is the
+// operation code, indep tells (evaluated in the state where both operations are pending) whether an
+// operation `otherOp` on the same object commutes with it. The relation must be symmetric.
+func SetOp(op int, indep func(otherOp int) bool) {
+	nextOp, nextIndep = op, indep
+}
+
+// SetDep overrides the dependence object of the next Block/Yield (not part of the trace hash).
+var nextDep uint64
+
+func SetDep(d uint64) { nextDep = d }
+
+func (x *Exec) takeOp() {
+	x.cur.pop, x.cur.pindep = nextOp, nextIndep
+	nextOp, nextIndep = 0, nil
+	if nextDep != 0 {
+		x.cur.pdep = nextDep
+		nextDep = 0
+	}
+}
+
+func dependent(a, b *thread) bool {
+	if a.pdep == 0 || b.pdep == 0 || a.pdep != b.pdep {
+		return false
+	}
+	if a.pindep != nil && b.pop != 0 && a.pindep(b.pop) {
+		return false
+	}
+	return true
+}
+
+// wakeDependents removes from the sleep set every thread whose pending operation is dependent with
+// the operation `next` is about to execute (same object).
+func (x *Exec) wakeDependents(next *thread) {
+	if len(x.sleep) == 0 {
+		return
+	}
+	delete(x.sleep, next.id)
+	if next.pdep == 0 {
+		return
+	}
+	for id := range x.sleep {
+		if dependent(next, x.threads[id]) {
+			delete(x.sleep, id)
+		}
+	}
 }
 
 // finishOrDeadlock is called when no thread is enabled.
@@ -291,6 +424,8 @@ func Block(what string, kind, obj int, cond func() bool) {
 	x.hash(x.cur.id, kind, obj)
 	x.cur.enabled = cond
 	x.cur.what = what
+	x.cur.pdep = uint64(obj)*2 + 1
+	x.takeOp()
 	// the pending operation is part of the thread's state (mixed in before the decision)
 	x.cur.h = mix(x.cur.h, uint64(kind)<<40^uint64(obj))
 	x.schedule(true)
@@ -308,6 +443,8 @@ func Yield(what string, kind, obj int) {
 	x.hash(x.cur.id, kind, obj)
 	x.cur.enabled = nil
 	x.cur.what = what
+	x.cur.pdep = uint64(obj)*2 + 1
+	x.takeOp()
 	x.cur.h = mix(x.cur.h, uint64(kind)<<40^uint64(obj))
 	x.schedule(true)
 }
@@ -322,8 +459,29 @@ func Choose(n int) int {
 	if x.aborting {
 		panic(abortSentinel{})
 	}
+	key := x.stateKey(2)
+	if x.onPoint != nil && len(x.choices) >= len(x.prefix) && !x.onPoint(x, key) {
+		x.outcome = "pruned"
+		x.abortAll()
+		panic(abortSentinel{})
+	}
 	c := x.nextChoice(n)
-	x.points = append(x.points, point{nEnabled: n, chosen: c, isData: true, key: x.stateKey(2)})
+	pt := point{nEnabled: n, chosen: c, isData: true, key: key}
+	if x.sleepMode {
+		if len(x.choices) == len(x.prefix) && len(x.prefix) > 0 {
+			x.sleep = map[int]bool{}
+			for _, id := range x.initSleep {
+				x.sleep[id] = true
+			}
+		}
+		for id := range x.sleep {
+			pt.sleep = append(pt.sleep, id)
+			pt.sleepH = append(pt.sleepH, x.threads[id].h)
+		}
+		slices.Sort(pt.sleep)
+		slices.Sort(pt.sleepH)
+	}
+	x.points = append(x.points, pt)
 	x.cur.h = mix(x.cur.h, uint64(c)+77)
 	if c != 0 {
 		x.DataDeviations++
@@ -354,6 +512,7 @@ func Go(f func()) {
 	// spawning is itself a scheduling point (the child may run first)
 	x.cur.enabled = nil
 	x.cur.what = "go"
+	x.cur.pdep, x.cur.pop, x.cur.pindep = 0, 0, nil
 	x.schedule(true)
 }
 
@@ -394,6 +553,7 @@ func (x *Exec) threadExit(t *thread) {
 	if t.id == 0 {
 		x.mainDone = true
 	}
+	t.pdep, t.pop, t.pindep = 0, 0, nil
 	// hand the baton to somebody else
 	defer func() {
 		if r := recover(); r != nil {
@@ -460,6 +620,7 @@ func Access(site string, addr uintptr, write bool) {
 		x.hash(me, 50, 0)
 		x.cur.enabled = nil
 		x.cur.what = "access " + site
+		x.cur.pdep, x.cur.pop, x.cur.pindep = uint64(addr)*2, 0, nil
 		x.cur.h = mix(x.cur.h, HashString(site))
 		x.schedule(true)
 		// a racy access is ordered with the other accesses of the same location
@@ -482,6 +643,10 @@ type Config struct {
 	Expired     func() bool
 	Reset       func() // called before every execution (package-level state)
 	NoStateCache bool  // disable happens-before state caching (pure stateless DFS)
+	// Full: unbounded exploration of all interleavings up to Mazurkiewicz-trace equivalence: sleep sets
+	// (operations on different objects are independent) + happens-before state caching. Preemptions
+	// is ignored; Deviations still bounds the data choices.
+	Full bool
 	// DelayBounding: every non-default thread choice costs one unit of Preemptions (delay bounding:
 	// the default scheduler continues the running thread, or the lowest-id enabled thread when it
 	// blocks). Off: only switches away from a still-enabled thread cost (preemption bounding).
@@ -515,6 +680,15 @@ type Stats struct {
 
 // RunOnce executes body under the scheduler following prefix then default choices.
 func RunOnce(prefix []int, horizon int, conflicts map[string]bool, reset func(), body func(x *Exec)) *Exec {
+	return runOnce(prefix, horizon, conflicts, reset, body, false, nil)
+}
+
+var (
+	runDelayMode bool
+	runOnPoint   func(x *Exec, key uint64) bool
+)
+
+func runOnce(prefix []int, horizon int, conflicts map[string]bool, reset func(), body func(x *Exec), sleepMode bool, initSleep []int) *Exec {
 	big.Lock()
 	defer big.Unlock()
 	if reset != nil {
@@ -528,6 +702,10 @@ func RunOnce(prefix []int, horizon int, conflicts map[string]bool, reset func(),
 	if x.conflicts == nil {
 		x.conflicts = map[string]bool{}
 	}
+	x.sleepMode = sleepMode
+	x.initSleep = initSleep
+	x.delayMode, x.onPoint = runDelayMode, runOnPoint
+	x.sleep = map[int]bool{}
 	t := &thread{id: 0, wake: make(chan struct{})}
 	x.threads = []*thread{t}
 	x.cur = t
@@ -564,7 +742,12 @@ func Explore(cfg Config, body func(x *Exec)) *Stats {
 	conflicts := map[string]bool{}
 	for round := 0; ; round++ {
 		st.Rounds = round + 1
-		newc := exploreRound(cfg, body, st, conflicts)
+		var newc map[string]bool
+		if cfg.Full {
+			newc = exploreFull(cfg, body, st, conflicts)
+		} else {
+			newc = exploreRound(cfg, body, st, conflicts)
+		}
 		if len(newc) == 0 || st.Capped {
 			break
 		}
@@ -582,6 +765,141 @@ func Explore(cfg Config, body func(x *Exec)) *Stats {
 	return st
 }
 
+func subsetOf(a, b []uint64) bool { // both sorted
+	j := 0
+	for _, v := range a {
+		for j < len(b) && b[j] < v {
+			j++
+		}
+		if j >= len(b) || b[j] != v {
+			return false
+		}
+		j++
+	}
+	return true
+}
+
+func (st *Stats) record(cfg Config, x *Exec, body func(x *Exec), conflicts map[string]bool, sleepMode bool, prefix, initSleep []int) {
+	st.Executions++
+	st.Points += int64(len(x.points))
+	if len(x.points) > st.MaxPoints {
+		st.MaxPoints = len(x.points)
+	}
+	if len(x.threads) > st.MaxThreads {
+		st.MaxThreads = len(x.threads)
+	}
+	o := x.outcome
+	if o == "" {
+		o = "completed"
+	}
+	st.Outcomes[o]++
+	if o == "sleepblocked" || o == "pruned" {
+		return
+	}
+	st.LeakedThreads += int64(len(x.blockedEnd))
+	if len(st.TraceHashes) < 200000 {
+		st.TraceHashes[x.trace] = struct{}{}
+	}
+	if x.outcome == "horizon" {
+		st.Capped = true
+		return
+	}
+	if cfg.Check == nil {
+		return
+	}
+	if msg := cfg.Check(x); msg != "" {
+		// replay determinism: the same choice list must give the same trace and verdict
+		y := RunOnce(x.choices, cfg.Horizon, conflicts, cfg.Reset, body)
+		st.ReplaysChecked++
+		msg2 := cfg.Check(y)
+		if y.trace != x.trace || (msg2 == "") != (msg == "") {
+			panic(fmt.Sprintf("vsched: replay of a violating schedule diverged (engine error)\nfirst: %s\nsecond: %s", msg, msg2))
+		}
+		if len(st.Violations) < 50 {
+			st.Violations = append(st.Violations, Violation{Desc: msg, Choices: x.Choices(), Outcome: o})
+		}
+	} else if st.Executions%257 == 0 {
+		y := RunOnce(x.choices, cfg.Horizon, conflicts, cfg.Reset, body)
+		st.ReplaysChecked++
+		if y.trace != x.trace {
+			panic("vsched: replay of a passing schedule diverged (engine error: uncontrolled nondeterminism)")
+		}
+	}
+}
+
+// exploreFull: stateless DFS with sleep sets and happens-before state caching (a cached state is
+// pruned only when it was explored with a sleep set included in the current one).
+func exploreFull(cfg Config, body func(x *Exec), st *Stats, conflicts map[string]bool) map[string]bool {
+	newc := map[string]bool{}
+	visited := map[uint64][][]uint64{}
+	defer func() { st.States += int64(len(visited)) }()
+	var rec func(prefix, initSleep []int, devUsed int)
+	rec = func(prefix, initSleep []int, devUsed int) {
+		if st.Capped {
+			return
+		}
+		if (cfg.MaxExec > 0 && st.Executions >= cfg.MaxExec) || (cfg.Expired != nil && cfg.Expired()) {
+			st.Capped = true
+			return
+		}
+		x := runOnce(prefix, cfg.Horizon, conflicts, cfg.Reset, body, true, initSleep)
+		for s := range x.newConf {
+			newc[s] = true
+		}
+		st.record(cfg, x, body, conflicts, true, prefix, initSleep)
+		dev := devUsed
+		for i := len(prefix); i < len(x.points); i++ {
+			p := x.points[i]
+			if !cfg.NoStateCache {
+				pruned := false
+				for _, s := range visited[p.key] {
+					if subsetOf(s, p.sleepH) {
+						pruned = true
+						break
+					}
+				}
+				if pruned {
+					st.Pruned++
+					break
+				}
+				visited[p.key] = append(visited[p.key], p.sleepH)
+			}
+			if p.isData {
+				if dev+1 <= cfg.Deviations {
+					for alt := 1; alt < p.nEnabled; alt++ {
+						rec(append(append([]int{}, x.choices[:i]...), alt), p.sleep, dev+1)
+					}
+				}
+				continue
+			}
+			asleep := map[int]bool{}
+			for _, id := range p.sleep {
+				asleep[id] = true
+			}
+			idx := map[int]int{}
+			for k, id := range p.ids {
+				idx[id] = k
+			}
+			done := []int{p.ids[p.chosen]}
+			for a := 0; a < p.nEnabled; a++ {
+				if a == p.chosen || asleep[p.ids[a]] {
+					continue
+				}
+				var child []int
+				for _, id := range append(append([]int{}, p.sleep...), done...) {
+					if k, ok := idx[id]; ok && !p.depm[a][k] {
+						child = append(child, id)
+					}
+				}
+				rec(append(append([]int{}, x.choices[:i]...), a), child, dev)
+				done = append(done, p.ids[a])
+			}
+		}
+	}
+	rec(nil, nil, 0)
+	return newc
+}
+
 func exploreRound(cfg Config, body func(x *Exec), st *Stats, conflicts map[string]bool) map[string]bool {
 	newc := map[string]bool{}
 	branch := 0
@@ -597,69 +915,37 @@ func exploreRound(cfg Config, body func(x *Exec), st *Stats, conflicts map[strin
 			st.Capped = true
 			return
 		}
+		runDelayMode = cfg.DelayBounding
+		if !cfg.NoStateCache {
+			runOnPoint = func(x *Exec, key uint64) bool {
+				left := budget{cfg.Preemptions - x.Preemptions, cfg.Deviations - x.DataDeviations}
+				if v, ok := visited[key]; ok && v.p >= left.p && v.d >= left.d {
+					// this happens-before state was (or is being) explored with at least this budget:
+					// every future from here is covered there
+					return false
+				} else if !ok || (left.p >= v.p && left.d >= v.d) {
+					visited[key] = left
+				}
+				return true
+			}
+		}
 		x := RunOnce(prefix, cfg.Horizon, conflicts, cfg.Reset, body)
+		runDelayMode, runOnPoint = false, nil
 		for s := range x.newConf {
 			newc[s] = true
 		}
+		if x.outcome == "pruned" {
+			st.Pruned++
+		}
 		countIt := depth > 0 || cfg.Shard == 0
 		if countIt {
-			st.Executions++
-			st.Points += int64(len(x.points))
-			if len(x.points) > st.MaxPoints {
-				st.MaxPoints = len(x.points)
-			}
-			if len(x.threads) > st.MaxThreads {
-				st.MaxThreads = len(x.threads)
-			}
-			st.LeakedThreads += int64(len(x.blockedEnd))
-			o := x.outcome
-			if o == "" {
-				o = "completed"
-			}
-			st.Outcomes[o]++
-			if len(st.TraceHashes) < 200000 {
-				st.TraceHashes[x.trace] = struct{}{}
-			}
-			if x.outcome == "horizon" {
-				st.Capped = true
-			}
-			if cfg.Check != nil && x.outcome != "horizon" {
-				if msg := cfg.Check(x); msg != "" {
-					// replay determinism: the same choice list must give the same trace and verdict
-					y := RunOnce(x.choices, cfg.Horizon, conflicts, cfg.Reset, body)
-					st.ReplaysChecked++
-					msg2 := cfg.Check(y)
-					if y.trace != x.trace || (msg2 == "") != (msg == "") {
-						panic(fmt.Sprintf("vsched: replay of a violating schedule diverged (engine error)\nfirst: %s\nsecond: %s", msg, msg2))
-					}
-					if len(st.Violations) < 50 {
-						st.Violations = append(st.Violations, Violation{Desc: msg, Choices: x.Choices(), Outcome: o})
-					}
-				} else if st.Executions%257 == 0 {
-					y := RunOnce(x.choices, cfg.Horizon, conflicts, cfg.Reset, body)
-					st.ReplaysChecked++
-					if y.trace != x.trace {
-						panic("vsched: replay of a passing schedule diverged (engine error: uncontrolled nondeterminism)")
-					}
-				}
-			}
+			st.record(cfg, x, body, conflicts, false, prefix, nil)
 		}
 		// alternatives
 		pre, dev := 0, 0
 		for i := 0; i < len(x.points); i++ {
 			p := x.points[i]
 			if i >= len(prefix) {
-				if !cfg.NoStateCache {
-					left := budget{cfg.Preemptions - pre, cfg.Deviations - dev}
-					if v, ok := visited[p.key]; ok && v.p >= left.p && v.d >= left.d {
-						// this happens-before state was (or is being) explored with at least this budget:
-						// every future from here is covered there
-						st.Pruned++
-						break
-					} else if !ok || (left.p >= v.p && left.d >= v.d) {
-						visited[p.key] = left
-					}
-				}
 				for alt := 1; alt < p.nEnabled; alt++ {
 					np, nd := pre, dev
 					if p.isData {
